@@ -490,6 +490,19 @@ impl KeyGenerator {
         &self.secret_key
     }
 
+    /// verification accessor: number of secret-key powers currently cached (takes the read lock)
+    #[cfg(feature = "verif")]
+    pub fn verif_sk_array_powers(&self) -> usize {
+        let context_data = self.context.key_context_data().unwrap();
+        let d = context_data.parms().poly_modulus_degree() * context_data.parms().coeff_modulus().len();
+        self.secret_key_array.read().unwrap_or_else(|e| e.into_inner()).len() / d
+    }
+
+    /// verification accessor: relinearization keys for ciphertexts of size up to `count + 2` (the public
+    /// `create_relin_keys` fixes `count = 1`)
+    #[cfg(feature = "verif")]
+    pub fn verif_generate_rlk(&self, count: usize, save_seed: bool) -> RelinKeys { self.generate_rlk(count, save_seed) }
+
     fn compute_secret_key_array(&self, max_power: usize) {
         let context_data = self.context.key_context_data().unwrap();
         let parms = context_data.parms();
@@ -497,6 +510,7 @@ impl KeyGenerator {
         let coeff_modulus_size = coeff_modulus.len();
         let coeff_count = parms.poly_modulus_degree();
 
+        #[cfg(feature = "verif")] crate::verif::sched::yield_at(0);
         // Aquire read lock
         let read_lock = self.secret_key_array.read().unwrap();
         assert!(read_lock.len() % (coeff_count * coeff_modulus_size) == 0);
@@ -515,6 +529,7 @@ impl KeyGenerator {
         secret_key_array[..old_size * poly_size].copy_from_slice(&read_lock[..old_size * poly_size]);
         // Drop lock
         drop(read_lock);
+        #[cfg(feature = "verif")] crate::verif::sched::yield_at(1);
         
         // Since all of the key powers in secret_key_array_ are already NTT transformed, to get the next one we simply
         // need to compute a dyadic product of the last one with the first one [which is equal to NTT(secret_key_)].
@@ -530,6 +545,7 @@ impl KeyGenerator {
             }
         }
 
+        #[cfg(feature = "verif")] crate::verif::sched::yield_at(2);
         // Aquire write lock
         let mut write_lock = self.secret_key_array.write().unwrap();
 
@@ -545,6 +561,7 @@ impl KeyGenerator {
         *write_lock = secret_key_array;
         
         // Lock is dropped automatically
+        #[cfg(feature = "verif")] { drop(write_lock); crate::verif::sched::yield_at(3); }
     }
 
 
@@ -607,6 +624,7 @@ impl KeyGenerator {
 
         // Make sure we have enough secret keys computed
         self.compute_secret_key_array(count + 1);
+        #[cfg(feature = "verif")] crate::verif::sched::yield_at(4);
 
         // Create the RelinKeys object to return
         let mut relin_keys = RelinKeys::default();
